@@ -131,6 +131,13 @@ func (c *dlClient) FilterLogs(ctx context.Context, q ethereum.FilterQuery) ([]ty
 		}
 		h := c.header(b).Hash()
 		idx := uint(0)
+		// a removed watched log comes from the block that was dropped at this height: it carries THAT block's hash
+		gone := c.header(b)
+		gone.Extra = []byte("dropped")
+		if c.noise[b] > 2 {
+			out = append(out, types.Log{Address: dlAddr, Topics: []common.Hash{dlWatched}, Data: []byte{0, 0, 0, 0, 0, 0, 0x27, 0x0e}, BlockNumber: b, BlockHash: gone.Hash(), Index: idx, Removed: true})
+			idx++
+		}
 		// noise first and in between: a log from another topic, a removed watched log
 		if c.noise[b] > 0 {
 			out = append(out, types.Log{Address: dlAddr, Topics: []common.Hash{dlOther}, BlockNumber: b, BlockHash: h, Index: idx})
@@ -142,7 +149,7 @@ func (c *dlClient) FilterLogs(ctx context.Context, q ethereum.FilterQuery) ([]ty
 			out = append(out, types.Log{Address: dlAddr, Topics: []common.Hash{dlWatched}, Data: d, BlockNumber: b, BlockHash: h, Index: idx})
 			idx++
 			if c.noise[b] > 1 {
-				out = append(out, types.Log{Address: dlAddr, Topics: []common.Hash{dlWatched}, Data: []byte{0, 0, 0, 0, 0, 0, 0x27, 0x0f}, BlockNumber: b, BlockHash: h, Index: idx, Removed: true})
+				out = append(out, types.Log{Address: dlAddr, Topics: []common.Hash{dlWatched}, Data: []byte{0, 0, 0, 0, 0, 0, 0x27, 0x0f}, BlockNumber: b, BlockHash: gone.Hash(), Index: idx, Removed: true})
 				idx++
 			}
 		}
@@ -206,8 +213,16 @@ func dlExec(r *Run, line string) {
 	cl.tipTag, _ = aggkittypes.LatestBlock.ToBlockNum()
 	cl.finTag, _ = finType.ToBlockNum()
 	var delivered []string
+	// every fifth watched log makes the appender fail once (the bridge syncer's appenders make RPC calls of their own): the
+	// loop must retry that log, not drop it
+	appFailed := map[uint64]bool{}
 	appender := sync.LogAppenderMap{dlWatched: func(b *sync.EVMBlock, l types.Log) error {
-		b.Events = append(b.Events, binary.BigEndian.Uint64(l.Data))
+		id := binary.BigEndian.Uint64(l.Data)
+		if id%5 == 0 && !appFailed[id] {
+			appFailed[id] = true
+			return errors.New("transient failure inside the log appender")
+		}
+		b.Events = append(b.Events, id)
 		return nil
 	}}
 	d, err := sync.NewEVMDownloader("verif", cl, chunk, aggkittypes.LatestBlock, time.Millisecond, appender, []common.Address{dlAddr},
@@ -317,7 +332,7 @@ func dlGen(r *Run, rng *Rng) {
 				chain = append(chain, fmt.Sprintf("%d:%s", b, strings.Join(ids, ",")))
 			}
 			if rng.Chance(20) {
-				noise = append(noise, fmt.Sprintf("%d:%d", b, 1+rng.Intn(2)))
+				noise = append(noise, fmt.Sprintf("%d:%d", b, 1+rng.Intn(3)))
 			}
 		}
 		// observation script: tips strictly increasing (what WaitForNewBlocks can return), finalized anywhere
